@@ -47,6 +47,37 @@ CHECKS.update({
         note='Preemption only at lock/transport boundaries; line-level preemption inside critical sections not explored. Trusted: ' + TB + '; the scheduler runs one thread at a time.'),
 })
 
+CHECKS.update({
+    'C05': dict(level='model_checking', design='5/C05',
+        technique='design spec AdbAuth (steps 0-7 of connect) with the Layer-A monitor AuthMon conjoined, explored by TLC over the whole product of device configurations; the same product (and 4 keys) executed on sync+async devices with recording signers, traces validated by TLC against TraceAuth',
+        text='TLC shows the handshake design satisfies every clause (first packet CNXN, newest token signed, each key once in order, stop at accept, public key only after exhaustion with one callback, auth-timeout wait, success iff final CNXN, maxdata adopted, documented errors, unavailable after raising) for all configurations and two consecutive connects; every configuration is then run on the real code and judged by the same monitor.',
+        note='Bounded (<= 3 keys in the model, 4 on the code; <= 2 strays in the model). Recording fake signers; real signers in C17. Trusted: ' + TB),
+    'C07': dict(level='model_checking', design='5/C07',
+        technique='design spec AdbPush (send-buffer arithmetic) explored by TLC for all scaled configurations; the same module with real constants evaluated into a table of expected WRITE sizes/records replayed as real pushes (sync+async); device-side decoded sync records validated by TLC against SyncMon/TraceSync',
+        text='Exact/DataLimit/WriteLimit/NoEmptyWrite/Grammar hold for every (maxdata, size, path length) of the scaled instance; TLC-computed WRITE payload sizes and record sequences for boundary sizes at real maxdata values match the real pushes exactly; every push (BytesIO, file, directory from inside/outside, callbacks ok/raising, random 32-bit modes/mtimes, paths to 1000 chars, multi-MiB) is judged clause by clause.',
+        note='Degenerate region maxdata <= 8+len(path,mode) excluded (outside the property). Trusted: ' + TB),
+    'C08': dict(level='model_checking', design='5/C08',
+        technique='design spec AdbSyncRead (buffered record reader) explored by TLC for every record-size sequence and cut set; every layout replayed at real scale as a pull (sync+async); random pulls validated against SyncMon/TraceSync and TraceEnv',
+        text='ParseOK/NoLeftover for all cuts including inside headers; all TLC layouts plus every byte offset of a two-record exchange replayed; random sizes to 4 MiB, record sizes, cuts, fragmentation, destinations, callbacks (ok/raising) judged by PullExact/CallbackSum/CallbackInert and stream-closure clauses.',
+        note='Scaled replay (model header byte = 4 real bytes). Trusted: ' + TB),
+    'C09': dict(level='model_checking', design='5/C09',
+        technique='AdbSyncRead layouts from TLC replayed as directory listings (20-byte DENT headers) and stat replies cut at every offset; random listings validated field by field (16-bit limbs) by SyncMon/TraceSync',
+        text='Every TLC layout as a listing, stat at all 15 offsets and 27 boundary-value triples, random listings up to 300 entries with arbitrary name bytes and 32-bit fields under arbitrary packetisation.',
+        note='Names compared as bytes. Trusted: ' + TB),
+    'C10': dict(level='model_checking', design='5/C10',
+        technique='AdbHost with rejected multi-WRITE pushes (FAIL free to overtake later OKAYs) explored by TLC, intended vs DEV_F5; tour replay; grid of rejection point x size x ordering x reason x packetisation on sync+async validated by SyncMon/TraceSync',
+        text='Design: no stuck state and the FAIL is delivered for every ordering; code: every rejected transfer ends in the documented exception carrying the reason, never a success, never a timeout. F5 was found by this check and fixed (KNOWN_FINDINGS.txt).',
+        note='Status ids restricted to FILESYNC_IDS; reorderings restricted to what adbd can produce. Trusted: ' + TB),
+    'C13': dict(level='model_checking', design='5/C13',
+        technique='life-cycle spec AdbApi explored by TLC; its labelled graph walked on fresh sync+async device objects for every letter sequence (full alphabet to length 3/4, operation classes to 4/6)',
+        text='Outcome class, bytes written to the transport, .available and local files compared with the model edge after every step of every sequence.',
+        note='Trusted: ' + TB),
+    'C14': dict(level='model_checking', design='5/C14',
+        technique='AdbAlloc (one action per source line of the id allocation block) explored by TLC with lock / sanity mutation without; model paths replayed with sys.settrace line-level preemption; exhaustive line-level DFS of the real block judged by the C14 clauses of TraceEnv',
+        text='IdRange and UniqueLive for 2-3 concurrent opens and counters at 0, M-3..M-1; every model path replayed on real threads; all line-level interleavings of two real _open calls (and random ones of three) near 0 and 2^32 judged on the OPEN packets on the wire.',
+        note='Line-level, not bytecode-level preemption. Trusted: ' + TB + '; sys.settrace.'),
+})
+
 NOT_YET = {}
 
 
